@@ -236,6 +236,10 @@ def run_write(ctx, arr, fault=None):
     streams = []
     kw_out = {} if out_name is NotImplemented else {'name': out_name}
     kw_map = {} if map_name is NotImplemented else {'name': map_name}
+    # 'factory+latin-1': the output stream declares an encoding (what a file opened in text mode does)
+    out_kind, _, out_encoding = out_kind.partition('+')
+    if out_encoding:
+        kw_out['encoding'] = out_encoding
     if out_kind == 'factory':
         out_arg = Factory(log, 'out', **kw_out)
     else:
@@ -333,8 +337,18 @@ def audit_fault_free(ctx, arr, obs):
         params, payload = trailer[len('\n//# sourceMappingURL=data:'):].split(',', 1)
         if 'base64' not in params.split(';'):
             out.append(('C18:inline_url_malformed', 'no base64 marker in %r' % params))
+        declared = [x[len('charset='):] for x in params.split(';') if x.startswith('charset=')]
+        want_charset = out_kind.partition('+')[2] or 'utf-8'
+        def codec(n):
+            import codecs
+            try:
+                return codecs.lookup(n).name
+            except LookupError:
+                return n
+        if [codec(d) for d in declared] != [codec(want_charset)]:
+            out.append(('C18:inline_url_charset', 'the data URL declares %r, the output stream is %s' % (declared, want_charset)))
         try:
-            got_map = json.loads(base64.b64decode(payload.strip()).decode('utf-8'))
+            got_map = json.loads(base64.b64decode(payload.strip()).decode(declared[0] if declared else 'utf-8'))
         except Exception as e:
             out.append(('C18:inline_url_undecodable', '%s: %r' % (e, payload[:40])))
             return out
@@ -361,6 +375,22 @@ def audit_fault_free(ctx, arr, obs):
                     'map written by the helper differs from sourcemap.write + encode_sourcemap in %r: %r vs %r' % (
                         diff, {k: got_map.get(k) for k in diff}, {k: expected_map.get(k) for k in diff})))
     return out
+
+
+def map_encodable(arr, obs, enc):
+    import io as pyio
+    import calmjs.parse.sourcemap as sm
+    frags = []
+    for t in obs['trees']:
+        frags.extend(tuple(f) for f in printer_of(arr[4])(t))
+    mappings, sources, names = sm.write(iter(frags), pyio.StringIO())
+    try:
+        for x in list(names) + [x for x in sources if isinstance(x, str)] + \
+                [x for x in (obs['out_name'], obs['map_name']) if isinstance(x, str)]:
+            x.encode(enc)
+    except UnicodeEncodeError:
+        return False
+    return True
 
 
 def arr_key(arr):
@@ -390,10 +420,19 @@ def explore_write(ctx, arr):
         ctx.case((arr_key(arr), 'empty'), True)
         report(ctx, viol, arr, None, 'write')
         return
-    viol = audit_closure(obs['log'], obs['streams'], None, obs['raised'])
+    raised = obs['raised']
+    enc = arr[0].partition('+')[2]
+    if enc and arr[1] == 'same' and isinstance(raised, UnicodeEncodeError) and not map_encodable(arr, obs, enc):
+        # the map cannot be written in the charset the stream declares: refusing is the only right outcome
+        # (a map with replacement characters is not the map the lower-level API yields)
+        ctx.count('unencodable_inline_map_refused')
+        raised = None
+        viol = audit_closure(obs['log'], obs['streams'], None, None)
+    else:
+        viol = audit_closure(obs['log'], obs['streams'], None, raised)
+        if raised is None:
+            viol += audit_fault_free(ctx, arr, obs)
     ctx.hit('close_checked', len(obs['streams']))
-    if obs['raised'] is None:
-        viol += audit_fault_free(ctx, arr, obs)
     ctx.case((arr_key(arr), 'none'), True,
              sample={'arrangement': [str(x) for x in arr[:7]], 'fault_points': sum(obs['log'].counts.values()),
                      'events': [list(map(str, e[1:3])) for e in obs['log'].events[:12]]}
@@ -521,6 +560,14 @@ def arrangements(ctx):
                 k += 1
                 if k % ctx.nshards == ctx.shard:
                     yield ('factory', mk, names_kind, 'single', 'minify_obfuscate', 'default', True, (prog,))
+    # output streams that declare an encoding: the inline map is written in it and says so; what it cannot
+    # represent cannot be written
+    for prog in PROGRAMS:
+        for enc in ('utf-8', 'latin-1', 'ascii', 'shift_jis', 'utf-16'):
+            for ok, pn in (('factory', 'minify_obfuscate'), ('open', 'pretty')):
+                k += 1
+                if k % ctx.nshards == ctx.shard:
+                    yield (ok + '+' + enc, 'same', 'relative', 'single', pn, 'default', True, (prog,))
 
 
 def run(ctx):
